@@ -134,7 +134,8 @@ Edits(d) ==
                E(38, p \o <<"count">>, InsField(d, p[1], 1, MkSize("count", Fld(d, p).id, 8)))}
                : p \in FSites(d, ps, LAMBDA x, j : x.fields[j].kind = "array" /\ x.fields[j].count >= 0)}
   \cup {E(39, p, InsField(d, p[1], p[2] + 1, [F0 EXCEPT !.kind = "padding", !.size = 8]))
-          : p \in FSites(d, ps, LAMBDA x, j : x.fields[j].kind \in {"scalar", "typedef", "payload", "body"}
+          : p \in FSites(d, ps, LAMBDA x, j : x.fields[j].kind \in {"scalar", "typedef", "payload", "body", "padding", "reserved",
+                                                                       "fixed", "fixedenum", "size", "count"}
                                                /\ (j = Len(x.fields) \/ x.fields[j + 1].kind # "padding"))}
   \cup {E(39, <<i, "first">>, InsField(d, i, 1, [F0 EXCEPT !.kind = "padding", !.size = 8])) : i \in ps}
   (* optional fields *)
